@@ -8,7 +8,7 @@ from pyPRISM.core.Space import Space
 
 RULE = ("metamorphic relations on the IMPLEMENTATION, at the level of a single cost evaluation (exact to rounding, arbitrary x, no convergence needed) and on converged solves: "
         "(perm) every permutation of the type list of random 2-3 component systems with a different closure/potential/omega per pair: cost(pi.sys)(pi.x) = pi.cost(sys)(x), all stored arrays permuted; "
-        "renaming the types; (split) a 1-component system vs its split into 2-3 labelled species with identical interactions, ratios 0.1-0.9: monatomic (SingleSite/NoIntra) and homopolymer -> symmetric diblock "
+        "renaming the types (strings, integers whose values differ from their positions); (split) a 1-component system vs its split into 2-3 labelled species with identical interactions, ratios 0.1-0.9 and tracer-level fractions 1e-6..1e-3: monatomic (SingleSite/NoIntra) and homopolymer -> symmetric diblock "
         "halves with the exact block omegas (cross omega normalised by 1/(N_A+N_B)), also next to a solvent species (rank 3): cost(split)(lift x) = lift cost(x); (scale) every energy parameter and kT multiplied by s in 1e-2..1e2, kT given to the "
         "constructor or assigned afterwards: cost identical, pmf multiplied by s; the permuted/split/scaled descriptions are also fed to the Lean model (cost correspondence). "
         "(solve) g, S, pmf of the paired converged solutions agree to the accuracy of the two solves. Non-trivial = all; distinct = distinct case")
@@ -67,7 +67,8 @@ def suite_perm(ctx, case):
     model_cost(ctx, 'perm', case, sd2, x2.reshape(-1), p1, y1)
     # renaming: same system with other type names
     s = G.build_system(sd)
-    names = ['poly', 'solv', 'X9', 'zz'][:n]
+    names = case.get('names') or ['poly', 'solv', 'X9', 'zz'][:n]
+    names = names[:n]
     s2 = pyPRISM.System(names, kT=sd['kT']); s2.domain = pyPRISM.Domain(length=L, dr=sd['dom'][1])
     for t in range(n):
         s2.density[names[t]] = sd['dens'][t]; s2.diameter[names[t]] = sd['diam'][t]
@@ -234,14 +235,16 @@ def generate(ctx):
         while sd['n'] < 2: sd = G.gen_system(rng, maxn=3, maxL=ctx.n(20, 48))
         perms = [list(q) for q in itertools.permutations(range(sd['n']))][1:]
         for perm in (perms if not ctx.quick() else [rng.choice(perms)]):
-            case = {'sys': sd, 'perm': perm, 'x': G.gen_x(rng, sd, 'moderate')}
+            case = {'sys': sd, 'perm': perm, 'x': G.gen_x(rng, sd, 'moderate'),
+                    'names': rng.choice([None, [2, 0, 1, 3], [1, 0, 3, 2], [10, 11, 12, 13], ['b', 'a', 'd', 'c']])}
             ctx.case('perm', case, True, tags=['perm:rank%d' % sd['n']] + C01.tags_of(sd)[:1]); suite_perm(ctx, case)
     for _ in range(ctx.n(40, 400)):
         L = rng.choice([12, 16, 24, 32])
         base = gen_base1(rng, L)
         m = rng.choice([2, 2, 3])
-        cuts = sorted(rng.uniform(0.1, 0.9) for _ in range(m - 1)); ratios = [b - a for a, b in zip([0.0] + cuts, cuts + [1.0])]
+        cuts = sorted((rng.uniform(0.1, 0.9) if rng.random() < 0.7 else 10 ** rng.uniform(-6, -3)) for _ in range(m - 1)); ratios = [b - a for a, b in zip([0.0] + cuts, cuts + [1.0])]
         ratios = [float('%.4g' % q) for q in ratios]; ratios[-1] = 1.0 - sum(ratios[:-1])
+        if min(ratios) <= 0: ratios = [0.5] * 2 if m == 2 else [0.3, 0.3, 0.4]
         kind = rng.choice(['monatomic', 'monatomic', 'diblock'])
         case = {'base': base, 'ratios': ratios, 'kind': kind, 'x': G.gen_x(rng, base, 'moderate')}
         if kind == 'diblock':
